@@ -102,6 +102,7 @@ type Stream struct {
 // Finding is a monitor verdict: a concrete input/history on which the property fails.
 type Finding struct {
 	Property  string   `json:"property"`
+	Stream    string   `json:"stream,omitempty"`
 	Signature string   `json:"signature"`
 	What      string   `json:"what"`
 	Ops       []string `json:"ops"`
